@@ -11,6 +11,37 @@ from .c40 import h
 stats = Counter()
 STRICT_SCOPES = False     # True: every hop of a symbol's scope chain must be a node that is still part of the routine's tree
 
+TRANSFORM_TIME_LIMIT = 90      # seconds per transformation run
+
+
+class TransformTimeout(BaseException):
+    """raised by the alarm handler; BaseException so that no `except Exception` inside Loki swallows it"""
+
+
+class time_limit:
+    def __init__(self, seconds):
+        self.seconds = seconds
+
+    def __enter__(self):
+        import signal
+
+        def handler(signum, frame):
+            raise TransformTimeout()
+        try:
+            self.old = signal.signal(signal.SIGALRM, handler)
+            signal.alarm(self.seconds)
+            self.armed = True
+        except ValueError:          # not in the main thread
+            self.armed = False
+
+    def __exit__(self, *exc):
+        import signal
+        if self.armed:
+            signal.alarm(0)
+            signal.signal(signal.SIGALRM, self.old)
+        return False
+
+
 # ====================================================================== registry of built-in transformations
 
 
@@ -281,6 +312,13 @@ def _callee_print_mentions_dummy(src):
     return False
 
 
+def _print_mentions_parameter(src):
+    """a PRINT statement mentions a name declared with the PARAMETER attribute"""
+    low = [l.split('!')[0].lower() for l in src.splitlines()]
+    params = {m.group(1) for l in low for m in [re.search(r'parameter\s*::\s*(\w+)', l)] if m}
+    return any(l.strip().startswith('print') and any(re.search(r'\b' + re.escape(q) + r'\b', l) for q in params) for l in low)
+
+
 def _callee_section_with_stride(src):
     """a routine other than the first contains an array section with a stride"""
     return any(_STRIDE.search(l) for _, lines in _callee_units(src) for l in lines if '::' not in l)
@@ -291,6 +329,7 @@ GATES = [
     ('loop-fission-promotes-outside-uses', lambda t: t == 'loop_fission', lambda src: _fission_array_used_outside(src)),
     ('inline-print-unsubstituted', lambda t: t.startswith('inline_'), lambda src: _callee_print_mentions_dummy(src)),
     ('inline-section-drops-stride', lambda t: t.startswith('inline_'), lambda src: _callee_section_with_stride(src)),
+    ('inline-constants-print-unsubstituted', lambda t: t == 'inline_constant_parameters', lambda src: _print_mentions_parameter(src)),
 ]
 
 
@@ -311,6 +350,8 @@ def classify(tname, src, probs):
     low = src.lower()
     if tname == 'loop_fission' and probs[0][0] in ('reparse', 'gfortran') and _fission_array_used_outside(src):
         return 'loop-fission-promotes-outside-uses'
+    if tname == 'inline_constant_parameters' and probs[0][0] in ('undeclared', 'gfortran') and _print_mentions_parameter(src):
+        return 'inline-constants-print-unsubstituted'
     if tname.startswith('inline_') and probs[0][0] in ('undeclared', 'gfortran') and _callee_print_mentions_dummy(src) and \
             ('implicit type' in probs[0][1].lower() or probs[0][0] == 'undeclared'):
         return 'inline-print-unsubstituted'
@@ -484,7 +525,7 @@ class C41(Prop):
     extra_obligations = ['oracle: scope chains, declared-or-imported, re-parse and gfortran syntax check after every registered transformation']
 
     def classes(self):
-        return ['remove-unused-vars-loop-variable', 'vector-notation-half-open-range', 'normalize-shape-drops-stride', 'merge-associates-detached-scope', 'loop-unroll-exit-cycle', 'inline-offset-on-bare-range', 'inline-dummy-case-mismatch', 'loop-fission-promotes-outside-uses', 'inline-print-unsubstituted', 'inline-section-drops-stride']
+        return ['remove-unused-vars-loop-variable', 'vector-notation-half-open-range', 'normalize-shape-drops-stride', 'merge-associates-detached-scope', 'loop-unroll-exit-cycle', 'inline-offset-on-bare-range', 'inline-dummy-case-mismatch', 'loop-fission-promotes-outside-uses', 'inline-print-unsubstituted', 'inline-section-drops-stride', 'inline-constants-print-unsubstituted']
 
     def gen(self, rng, tier):
         rounds = {'quick': 1, 'thorough': 8, 'search': 3}.get(tier, 1)
@@ -570,7 +611,12 @@ class C41(Prop):
             stats[f'input-rejected-by-frontend:{type(e).__name__}'] += 1
             return []
         try:
-            REGISTRY[tname](sf)
+            with time_limit(TRANSFORM_TIME_LIMIT):
+                REGISTRY[tname](sf)
+        except TransformTimeout:
+            # a transformation that does not come back leaves no IR to judge (counted, reported in notes/C41.md)
+            stats[f'timeout:{tname}'] += 1
+            return []
         except Exception as e:
             stats[f'raised:{tname}:{type(e).__name__}'] += 1
             return []
